@@ -365,6 +365,15 @@ def run(ctx):
             tspec["names"] = rng.choice([["t", "f"], ["x", "y"], ["frequency", "time"]])   # the last one swaps the usual names on purpose
         ng = rng.choice([1, 1, 2, 3, 3, 5])
         pool = rng.choice([["BoundingBox"], list(geoms.AREAL), list(geoms.AREAL), geoms.TYPES])
+        if rng.random() < 0.02:
+            # a whole clip's worth of annotations burnt in one call; a long, narrow template
+            ng = rng.choice([16, 17, 33, 130, 257])
+            pool = list(geoms.AREAL)
+        if rng.random() < 0.02:
+            nt, nf = rng.choice([(257, 3), (1025, 2), (2, 513), (300, 129)])
+            t = _axis(rng, nt, "regular", 0.0, rng.choice([0.01, 256 / 44100]))
+            f = _axis(rng, nf, "regular", 0.0, rng.choice([125.0, 86.1328125]))
+            tspec.update(time=t, freq=f)
         gspecs, wheres = [], []
         for _ in range(ng):
             w, gsp = _geom_on_template(rng, rng.choice(pool), t, f)
@@ -393,7 +402,7 @@ def run(ctx):
         if dtype == "int16" and fill != fill:
             fill = -1
         values = rng.choice(["scalar", "list", "list"]) if ng > 1 else rng.choice(["scalar", "list"])
-        vals = rng.choice([1, 3, 7]) if values == "scalar" else [k + 1 for k in range(ng)]
+        vals = rng.choice([1, 3, 7]) if values == "scalar" else [(k % 250) + 1 for k in range(ng)]      # (representable in every template dtype used)
         if isinstance(vals, list) and rng.random() < 0.35:
             # values are the caller's: they may repeat, and one of them may coincide with the fill value (an "eraser")
             pool_v = [v for v in (fill, fill, vals[0], 0, 2, 5) if v == v or dtype.startswith("float")]
